@@ -32,6 +32,8 @@ const (
 	gV           // x = yield from child() ; vh.log(T, x)
 	gI           // yield from [T, T+50]   (a delegate that is not a generator: no send())
 	gW           // try: body  finally: x = yield T ; vh.log(T, x)   (suspension inside the finally clause)
+	gQ           // return (T, T+1)   (a tuple as return value: it is the value, not the argument list, of StopIteration)
+	gZ           // return ()
 )
 
 type gitem struct {
@@ -40,7 +42,7 @@ type gitem struct {
 	body []*gitem // loop body / try body / body of the child generator function
 }
 
-func (it *gitem) terminal() bool { return it.k == gR || it.k == gE }
+func (it *gitem) terminal() bool { return it.k == gR || it.k == gE || it.k == gQ || it.k == gZ }
 
 // compact, regexp friendly spelling of a shape: Y X G R E L[..] T[..] F(..) V(..)
 func gstr(items []*gitem) string {
@@ -57,6 +59,10 @@ func gstr(items []*gitem) string {
 			parts = append(parts, "R")
 		case gE:
 			parts = append(parts, "E")
+		case gQ:
+			parts = append(parts, "Q")
+		case gZ:
+			parts = append(parts, "Z")
 		case gI:
 			parts = append(parts, "I")
 		case gL:
@@ -105,8 +111,9 @@ func gnumber(items []*gitem, next *int) {
 // ---- enumeration of all shapes with exactly n items ----
 
 type genum struct {
-	bodies map[int][][]*gitem
-	withI  bool
+	bodies    map[int][][]*gitem
+	withI     bool
+	withTuple bool // return (T, T+1) / return () instead of return T / raise
 }
 
 // items of total size s (the item itself counts 1)
@@ -114,6 +121,9 @@ func (e *genum) items(s int) []*gitem {
 	if s == 1 {
 		if e.withI {
 			return []*gitem{{k: gY}, {k: gX}, {k: gI}, {k: gG}, {k: gR}, {k: gE}}
+		}
+		if e.withTuple {
+			return []*gitem{{k: gY}, {k: gX}, {k: gG}, {k: gQ}, {k: gZ}}
 		}
 		return []*gitem{{k: gY}, {k: gX}, {k: gG}, {k: gR}, {k: gE}}
 	}
@@ -205,6 +215,10 @@ func gRenderItems(b *strings.Builder, fn string, ind, depth int, items []*gitem,
 			b.WriteString(pad + "return " + t + "\n")
 		case gE:
 			b.WriteString(pad + "raise ValueError\n")
+		case gQ:
+			b.WriteString(pad + "return (" + t + ", " + t + " + 1)\n")
+		case gZ:
+			b.WriteString(pad + "return ()\n")
 		case gL:
 			b.WriteString(pad + fmt.Sprintf("for i%d in range(2):\n", depth+1))
 			gRenderItems(b, fn, ind+1, depth+1, it.body, defs)
@@ -337,6 +351,11 @@ func (m *gmodel) item(it *gitem, f *gframe) gout {
 		return gout{k: oRet, v: gTag(it, f)}
 	case gE:
 		return gout{k: oRaise, v: "ValueError"}
+	case gQ:
+		t, _ := strconv.Atoi(gTag(it, f))
+		return gout{k: oRet, v: "(" + itoa(t) + "," + itoa(t+1) + ")"}
+	case gZ:
+		return gout{k: oRet, v: "()"}
 	case gL:
 		for i := 0; i < 2; i++ {
 			f.loops = append(f.loops, i)
@@ -695,18 +714,33 @@ func c05Plans(quick bool) []gplan {
 		}
 		return out
 	}
+	// shapes that return a tuple (at least one Q or Z item)
+	enT := &genum{bodies: map[int][][]*gitem{}, withTuple: true}
+	singleT := func(n int) []gtuple {
+		var out []gtuple
+		for s := 1; s <= n; s++ {
+			for _, b := range enT.all(s) {
+				if gHas(b, gQ) || gHas(b, gZ) {
+					out = append(out, gtuple{shapes: [][]*gitem{b}})
+				}
+			}
+		}
+		return out
+	}
 	var plans []gplan
 	if quick {
 		plans = []gplan{
 			{"a1", single(4), []byte{'n', 's', 'z'}, 6},
 			{"a2", pairs(2, 2, 3), []byte{'n', 's'}, 6},
 			{"a3", singleI(3), []byte{'n', 's', 'z'}, 6},
+			{"a4", singleT(3), []byte{'n', 's'}, 5},
 		}
 	} else {
 		plans = []gplan{
 			{"a1", single(5), []byte{'n', 's', 'z'}, 8},
 			{"a2", pairs(3, 2, 4), []byte{'n', 's'}, 8},
 			{"a3", singleI(4), []byte{'n', 's', 'z'}, 8},
+			{"a4", singleT(4), []byte{'n', 's'}, 6},
 		}
 	}
 	return plans
@@ -918,7 +952,7 @@ func init() {
 	core.Register(&core.Check{
 		ID:    "C05",
 		Level: "model_checking",
-		Rule: "(a) explicit-state breadth-first search over histories of {next(g), g.send(7), g.send(None)} on one live generator (history <= 6 / 8) and of {next, send(7)} on two live generators (two instances of one function, or two functions), for EVERY generator function of a statement DSL with <= 4 (quick) / <= 5 (thorough) items (plus, with the item `yield from [T, T+50]` (no send(): AttributeError inside the generator), every shape containing it with <= 3 / <= 4 items) " +
+		Rule: "(a) explicit-state breadth-first search over histories of {next(g), g.send(7), g.send(None)} on one live generator (history <= 6 / 8) and of {next, send(7)} on two live generators (two instances of one function, or two functions), for EVERY generator function of a statement DSL with <= 4 (quick) / <= 5 (thorough) items (plus, with the item `yield from [T, T+50]` (no send(): AttributeError inside the generator), every shape containing it with <= 3 / <= 4 items; plus, with `return (T, T+1)` and `return ()` in place of `return T` / raise, every shape containing one with <= 3 / <= 4 items: a tuple is the value carried by StopIteration and the value of `yield from`, not its argument list) " +
 			"(pairs: <= 2 x <= 2 items and same-function pairs <= 3 / <= 3 x <= 2 and <= 4): items {yield T, x = yield T; log(T, x), log(T, x), return T, raise ValueError, for i in range(2): body, try: body finally: log(T, x), try: body finally: x = yield T; log(T, x) (suspension inside the finally clause while a return value or an exception is pending), yield from child(), x = yield from child(); log(T, x)}, child = a nested shape, T = item id + 100*loop indices; return/raise only last in a block. " +
 			"Model: coroutine-style interpreter in Go (trace of log entries between resumptions; sent value = value of the yield expression; send(non-None) before the start = TypeError and the generator can still be started; return v = StopIteration with args (v,), falling off = args (); raised = exhausted; exhausted stays exhausted (twice); finally runs at completion/raise, not at suspension; yield from forwards next/send and evaluates to the child's return value). " +
 			"State = (position path, loop indices, x of every live frame, started/exhausted+cause); successors by replay of the history on fresh generators plus one operation; each transition is executed through compiled Python (next()/send()/except StopIteration as e: e.args, e.value) AND through the Go API (py.Call, py.Next, py.Send). " +
